@@ -26,6 +26,7 @@ type Gen struct {
 	heapSorts map[string]string
 	mapSorts map[string][2]string
 	Bounded  []string
+	sortGoType map[string]types.Type
 }
 
 func newGen(p *Prog, c *Contracts) *Gen {
@@ -78,6 +79,19 @@ func (g *Gen) namedName(t types.Type) string {
 
 // sortOf maps a Go type to an SMT sort. bv says whether Go int is 64-bit vector.
 func (g *Gen) sortOf(t types.Type, bv bool) string {
+	s := g.sortOf1(t, bv)
+	if g.sortGoType == nil {
+		g.sortGoType = map[string]types.Type{}
+	}
+	if _, ok := g.sortGoType[s]; !ok || s != sInt {
+		if s != sInt {
+			g.sortGoType[s] = t
+		}
+	}
+	return s
+}
+
+func (g *Gen) sortOf1(t types.Type, bv bool) string {
 	intSort := sInt
 	if bv {
 		intSort = sBV64
